@@ -87,6 +87,40 @@ fn main() {
             let ctx = Ctx { tier, seed };
             worker_main(d.as_ref(), &ctx, WorkerArgs { shard, nshards, resume_unit, resume_case, only });
         }
+        "selftest-lp" => {
+            use lp::*;
+            use rat::*;
+            // min a0+a1+a2+a3 s.t. rows with artificials (phase-1 problem of a small model)
+            let rows = vec![
+                (vec![qi(3), qi(2), qi(-1), qi(-1), qi(0)], qf(53, 4)),
+                (vec![qi(-5), qi(3), qi(1), qi(0), qi(0)], qi(0)),
+                (vec![qf(3, 2), qf(-1, 2), qf(-3, 10), qi(0), qi(1)], qi(0)),
+                (vec![qi(-4), qi(3), qi(5), qi(0), qi(0)], qi(10)),
+            ];
+            let mut lp = Lp { vars: vec![], rows: vec![], c: vec![], c0: zero(), maximize: false };
+            for _ in 0..9 {
+                lp.vars.push(LpVar { lo: Some(zero()), hi: None, int: false });
+            }
+            for (i, (a, b)) in rows.iter().enumerate() {
+                let mut a = a.clone();
+                for k in 0..4 {
+                    a.push(if k == i { one() } else { zero() });
+                }
+                lp.rows.push(LpRow { a, rel: Rel::Eq, b: b.clone() });
+            }
+            lp.c = vec![zero(), zero(), zero(), zero(), zero(), one(), one(), one(), one()];
+            match solve_lp(&lp) {
+                Ok(LpAnswer::Optimal { x, value }) => println!("optimal {} at {}", show(&value), show_vec(&x)),
+                Ok(o) => println!("{}", o.kind()),
+                Err(e) => println!("oracle failed: {e}"),
+            }
+        }
+        "debug-c14" => {
+            let seed: u64 = args[2].parse().unwrap();
+            let unit: usize = args[3].parse().unwrap();
+            let case: usize = args[4].parse().unwrap();
+            props::c14::debug_case(seed, unit, case, args.get(5).map(|s| s.as_str()) == Some("thorough"));
+        }
         "debug-c12" => {
             // rv debug-c12 <seed> <unit> <case>: dump the builder model and its re-parsed rendering
             let seed: u64 = args[2].parse().unwrap();
